@@ -99,6 +99,7 @@ m = {
  },
  'engines': [
    {'name': 'harness', 'path': '/verif/harness', 'serves_properties': sorted(CLAIMED), 'kind_free_text': 'cargo crate: proptest runners (16 shards, fixed seeds), cargo-fuzz bridge (libFuzzer input = generator random stream), simnet (simulated Socket + world + virtual clock), independent wire codec, per-property oracles, evidence writer'},
+   {'name': 'fuzz', 'path': '/verif/fuzz', 'serves_properties': sorted(c for c in CLAIMED if c != 'C20'), 'kind_free_text': 'cargo-fuzz crate (libFuzzer): pbt_bridge (input = random stream of a sub-check generator, the sub-check oracle in-target; thorough tier of every property but C20), recv_path and codec_views (C04 thorough tier); corpus/<ID>/<sub>/ holds distilled inputs replayed in every tier'},
  ],
  'checks': checks,
  'notes': 'exit 0 = held on everything explored, 1 = VIOLATION line, 2 = inconclusive (build failure / watchdog). VERIF_SEED selects the PRNG stream; VERIF_SCALE scales case counts.',
